@@ -55,6 +55,11 @@ type c13Plan struct {
 	// history on the same (long-lived) validator before the judged call:
 	Prelude   bool // first validate the unmutated offer of this world
 	FailFirst bool // then validate the judged offer once while the header lookup fails
+	// kind 2: the code-hash field of the contract's account leaf: 0 the 32-byte hash, 1 the hash followed by 1..3 more bytes,
+	// 2 the hash cut short (to 31, 20 or 1 bytes; rlp allows a byte string of any length there). An EMPTY field is not generated: the code
+	// reads leaves with go-ethereum's FullAccount, for which an empty code-hash field means "the hash of the empty code" (slim
+	// account encoding), so accepting empty code under it demands nothing the statement forbids (found as a false alarm of this check).
+	CodeHashShape int
 }
 
 var c13MutKinds = []string{"path-short", "path-long", "path-nibble", "hash", "block", "block", "order", "drop", "drop", "dup", "surplus", "byte", "other-trie",
@@ -78,6 +83,9 @@ func genC13(t *rapid.T) c13Plan {
 		p.NLeaves = rapid.IntRange(100, 500).Draw(t, "nBig")
 	default:
 		p.NLeaves = rapid.IntRange(1, 60).Draw(t, "n")
+	}
+	if p.Kind == 2 && rapid.IntRange(0, 3).Draw(t, "chShapeGate") == 0 {
+		p.CodeHashShape = rapid.IntRange(1, 2).Draw(t, "chShape")
 	}
 	switch rapid.IntRange(0, 19).Draw(t, "craftGate") {
 	case 0:
@@ -204,11 +212,15 @@ func genKeys(seed uint64, label string, n, mode int) [][]byte {
 }
 
 func accountRLP(seed uint64, i uint64, root vm.H32, codeHash vm.H32) []byte {
+	return accountRLPRaw(seed, i, root, codeHash[:])
+}
+
+func accountRLPRaw(seed uint64, i uint64, root vm.H32, codeHash []byte) []byte {
 	acc := types.StateAccount{
 		Nonce:    prfU64(seed, "nonce", i) % 1000,
 		Balance:  uint256.NewInt(prfU64(seed, "bal", i)),
 		Root:     gcommon.Hash(root),
-		CodeHash: codeHash[:],
+		CodeHash: codeHash,
 	}
 	b, err := rlp.EncodeToBytes(&acc)
 	if err != nil {
@@ -369,7 +381,20 @@ func buildC13(p c13Plan) *c13World {
 		}
 		contract := prf(p.Seed, "contract", 0)
 		akeys := [][]byte{contract[:]}
-		avals := [][]byte{accountRLP(p.Seed, 0, storageRoot, codeHash)}
+		chField := codeHash[:]
+		if p.Kind != 2 || p.CodeHashShape > 2 {
+			p.CodeHashShape = 0
+		}
+		if p.CodeHashShape != 0 {
+			w.crafted = true // not an account: the field that must equal the key's hash is no 32-byte hash
+		}
+		switch p.CodeHashShape {
+		case 1:
+			chField = append(append([]byte{}, codeHash[:]...), prfBytes(p.Seed, "chx", 1+int(p.Seed%3))...)
+		case 2:
+			chField = append([]byte{}, codeHash[:[]int{31, 20, 1}[p.Seed%3]]...)
+		}
+		avals := [][]byte{accountRLPRaw(p.Seed, 0, storageRoot, chField)}
 		for i := 1; i < p.NAcct; i++ {
 			k := prf(p.Seed, "acct", uint64(i))
 			if p.AcctMode == 1 {
